@@ -82,6 +82,7 @@ fn interleaving_hash(h: &History) -> u64 {
             Kind::TimerCmp { .. } => "TC",
             Kind::TimerParts { .. } => "TP",
             Kind::AppSetWrite => "AW",
+            Kind::AppSetRead => "AR",
             Kind::CtlAbandon { .. } => "CA",
             Kind::NeighbourMutate { .. } => "NM",
             Kind::OpCancel { .. } => "OC",
@@ -156,32 +157,68 @@ pub fn exec_in_thread(
     let p = p.clone();
     let cfg = cfg.clone();
     let (tx, rx) = std::sync::mpsc::channel();
+    let in_sut = Arc::new(std::sync::atomic::AtomicBool::new(false));
+    let in_sut2 = in_sut.clone();
     let h = std::thread::Builder::new()
         .stack_size(32 << 20)
         .spawn(move || {
             crate::world::IS_RUN_THREAD.with(|c| c.set(true));
+            crate::world::SUT_FLAG.with(|f| *f.borrow_mut() = Some(in_sut2));
             let r = std::panic::catch_unwind(std::panic::AssertUnwindSafe(|| f(&p, &cfg)));
             let _ = tx.send(r.map_err(|_| crate::take_last_panic()));
         })
         .map_err(|e| format!("spawn: {e}"))?;
     // a run that never returns (the code under test loops without touching the environment)
     // must not hang the batch: give up on it after a generous wall-clock limit
-    match rx.recv_timeout(std::time::Duration::from_secs(run_timeout_s())) {
-        Ok(Ok(x)) => {
-            let _ = h.join();
-            Ok(x)
+    let t0 = Instant::now();
+    loop {
+        match rx.recv_timeout(std::time::Duration::from_millis(500)) {
+            Ok(Ok(x)) => {
+                let _ = h.join();
+                return Ok(x);
+            }
+            Ok(Err(pi)) => {
+                let _ = h.join();
+                return Err(format!("harness panic: {:?}", pi));
+            }
+            Err(_) => {
+                // a run normally takes milliseconds; one that is still going after the limit, or while
+                // the process has grown past the memory limit, is given up (its thread cannot be stopped)
+                let over_time = t0.elapsed().as_secs() >= run_timeout_s();
+                let over_mem = t0.elapsed().as_secs() >= 5 && rss_mb() > mem_limit_mb();
+                if over_time || over_mem {
+                    // library code that spins also polls environment futures now and then: sample the mark
+                    let mut sut = false;
+                    for _ in 0..100 {
+                        if in_sut.load(Ordering::Relaxed) {
+                            sut = true;
+                            break;
+                        }
+                        std::thread::sleep(std::time::Duration::from_millis(2));
+                    }
+                    return Err(format!("TIMEOUT{}: the run did not return ({}; library code running: {})", if sut { "-SUT" } else { "" }, if over_mem { "process memory limit exceeded" } else { "wall-clock limit" }, sut));
+                }
+            }
         }
-        Ok(Err(pi)) => {
-            let _ = h.join();
-            Err(format!("harness panic: {:?}", pi))
-        }
-        Err(_) => Err("TIMEOUT: the run did not return".to_string()),
     }
 }
 
 pub fn run_timeout_s() -> u64 {
-    std::env::var("VERIF_RUN_TIMEOUT_S").ok().and_then(|s| s.parse().ok()).unwrap_or(90)
+    std::env::var("VERIF_RUN_TIMEOUT_S").ok().and_then(|s| s.parse().ok()).unwrap_or(40)
 }
+
+pub fn mem_limit_mb() -> u64 {
+    std::env::var("VERIF_MEM_LIMIT_MB").ok().and_then(|s| s.parse().ok()).unwrap_or(12_000)
+}
+
+/// resident set size of this process in MiB (0 if it cannot be read)
+pub fn rss_mb() -> u64 {
+    std::fs::read_to_string("/proc/self/statm").ok().and_then(|s| s.split_whitespace().nth(1).and_then(|p| p.parse::<u64>().ok())).map(|pages| pages * 4096 / (1 << 20)).unwrap_or(0)
+}
+
+/// set when a run was given up while library code was running: the batch stops (the abandoned
+/// thread keeps spinning, possibly allocating) and the check reports and exits at once
+pub static HANG_SEEN: std::sync::atomic::AtomicBool = std::sync::atomic::AtomicBool::new(false);
 
 pub fn run_batch(base_seed: u64, batch: &Batch, workers: usize, deadline: Instant, agg: &Mutex<Agg>) {
     let next = Arc::new(AtomicU64::new(0));
@@ -190,7 +227,7 @@ pub fn run_batch(base_seed: u64, batch: &Batch, workers: usize, deadline: Instan
             let next = next.clone();
             s.spawn(move || loop {
                 let idx = next.fetch_add(1, Ordering::SeqCst);
-                if idx >= batch.runs || Instant::now() > deadline {
+                if idx >= batch.runs || Instant::now() > deadline || HANG_SEEN.load(Ordering::SeqCst) {
                     break;
                 }
                 let cfg = make_cfg(base_seed, batch, idx);
@@ -246,12 +283,21 @@ pub fn run_batch(base_seed: u64, batch: &Batch, workers: usize, deadline: Instan
                     }
                     Err(e) => {
                         let mut a = agg.lock().unwrap();
-                        if e.starts_with("TIMEOUT") && batch.profile.name.starts_with("c14") {
-                            // C14.R2: never hang
+                        if e.starts_with("TIMEOUT-SUT") {
+                            // the code under test loops without touching its environment: whatever the
+                            // property says about an outcome, a reply or an end of the flow does not happen
+                            HANG_SEEN.store(true, Ordering::SeqCst);
+                            let prop = batch.name.split('-').next().unwrap_or("").to_uppercase();
+                            let rule = match prop.as_str() {
+                                "C14" => "R2",
+                                "C13" => "R3",
+                                "C11" => "R6",
+                                _ => "HANG",
+                            };
                             a.violations.push((
                                 batch.name.clone(),
                                 idx,
-                                Violation { prop: "C14".into(), rule: "C14.R2".into(), site: "hang".into(), detail: format!("the run did not return within {} s of wall-clock time: the code under test loops without touching its environment", run_timeout_s()) },
+                                Violation { prop: prop.clone(), rule: format!("{prop}.{rule}"), site: "hang".into(), detail: format!("the run did not return: the code under test loops without touching its environment ({e})") },
                                 cfg.overrides.clone(),
                             ));
                         } else {
